@@ -276,6 +276,46 @@ def record_ms(case):
     return c
 
 
+MAPPING_FILES_QUICK = ["1ehz-assembly-1.cif", "4qln.pdb", "1JJP.cif"]
+MAPPING_FILES_THOROUGH = MAPPING_FILES_QUICK + ["8btk_B7.cif", "488d.pdb", "1E7K_1_C.cif", "4WTI_1_T-P.cif", "2HY9.cif"]
+
+
+def record_mapping_all(name):
+    """all_dot_brackets through the 3D->2D mapping of a corpus structure.  Two cases per file:
+      <name>-map  : the list Mapping2D3D.all_dot_brackets renders (strand texts concatenated per entry),
+      <name>-bp   : BpSeq.all_dot_brackets of the mapping's own BPSEQ object, asked AFTER the mapping rendered its
+                    list (a shared, cached list must not have been edited by the rendering)."""
+    from rnapolis import annotator, parser
+    from rnapolis.tertiary import Mapping2D3D
+    with open(os.path.join(lib.REPO, "tests", name)) as f:
+        s3 = parser.read_3d_structure(f)
+    bi = annotator.extract_base_interactions(s3)
+    m = Mapping2D3D(s3, bi.basePairs, bi.stackings, False)
+    out = []
+    try:
+        rendered, err = list(m.all_dot_brackets), ""
+    except Exception as e:
+        rendered, err = [], type(e).__name__
+    b = m.bpseq
+    n = len(b.entries)
+    pairs = sorted([i, j] for i, j in b.pairs.items() if i < j)
+    base = {"kind": "bp", "n": n, "pairs": pairs, "seq": [e.sequence for e in b.entries], "optimal_called": True,
+            "all_called": True, "optimal": _enc(lambda: b.dot_bracket), "fcfs": _enc(lambda: b.fcfs)}
+    texts = []
+    for t in rendered:
+        lines = t.split("\n")
+        seq = "".join(lines[k] for k in range(1, len(lines), 3))
+        db = "".join(lines[k] for k in range(2, len(lines), 3))
+        texts.append({"err": "", "seq": list(seq), "db": list(db)})
+    out.append(dict(base, id=f"xmap-{name}-map", all={"err": err, "list": texts}))
+    try:
+        lst = {"err": "", "list": [_enc(lambda d=d: d) for d in b.all_dot_brackets]}
+    except Exception as e:
+        lst = {"err": type(e).__name__, "list": []}
+    out.append(dict(base, id=f"xmap-{name}-bp", all=lst))
+    return out
+
+
 def _rec_bp_c01(case):
     return record_bp(case, want=("all", "text"))
 
@@ -329,6 +369,26 @@ def db_cases_exhaustive(maxlen, types):
     for k, s in enumerate(balanced_strings(maxlen, types)):
         cases.append({"id": f"d{types}x{maxlen}-{k}", "kind": "db", "db": list(s),
                       "seq": [LETTERS[(i + k) % 4] for i in range(len(s))]})
+    return cases
+
+
+def db_cases_type_pairs():
+    """Every bracket type alone and every ordered pair of types, nested and crossing, with unpaired positions
+    inside every pair (the decoder keeps one stack per type: a slip that concerns one type, or one type next to
+    another, is invisible to strings that use the first few types only)."""
+    cases = []
+    for t in range(30):
+        cases.append({"id": f"dt{t}", "kind": "db", "db": list("." + OPEN[t] + "..." + CLOSE[t] + ".")})
+        cases.append({"id": f"dtt{t}", "kind": "db", "db": list(OPEN[t] + "." + OPEN[t] + ".." + CLOSE[t] + "." + CLOSE[t])})
+        for u in range(30):
+            if u == t:
+                continue
+            cases.append({"id": f"dx{t}-{u}", "kind": "db",
+                          "db": list("." + OPEN[t] + "." + OPEN[u] + ".." + CLOSE[t] + "." + CLOSE[u] + ".")})
+            cases.append({"id": f"dn{t}-{u}", "kind": "db",
+                          "db": list(OPEN[t] + ".." + OPEN[u] + "." + CLOSE[u] + "." + CLOSE[t])})
+    for k, c in enumerate(cases):
+        c["seq"] = [LETTERS[(i + k) % 4] for i in range(len(c["db"]))]
     return cases
 
 
